@@ -48,6 +48,7 @@ Print Assumptions C15_hit_moves_to_front.
 Theorem C15_miss_changes_nothing : forall s k,
   snd (lru_step s (OGet k)) = RGet None -> fst (lru_step s (OGet k)) = s.
 Proof. exact miss_unchanged. Qed.
+Print Assumptions C15_miss_changes_nothing.
 
 (* a dirty entry is never removed, whatever the next operation is (other than being
    marked clean) *)
